@@ -297,9 +297,10 @@ type TLG struct {
 	fieldElemT  map[*types.Var]string
 	changed     bool
 	warm        bool
-	lastRetOK   []AV  // Probe only: the ok-exit results of the function just analysed
-	lastPostOK  []AV  // Probe only: the parameter facts at the nil-error exits of the function just analysed
-	curAn       *fnAn // during a Probe callback: the analysis and state at the instruction
+	lastFeas    map[*ssa.BasicBlock]map[int]bool // Probe only: the predecessor edges over which a state arrived
+	lastRetOK   []AV                             // Probe only: the ok-exit results of the function just analysed
+	lastPostOK  []AV                             // Probe only: the parameter facts at the nil-error exits of the function just analysed
+	curAn       *fnAn                            // during a Probe callback: the analysis and state at the instruction
 	curSt       tstate
 	round       int
 
@@ -815,6 +816,7 @@ func (t *TLG) analyze(fn *ssa.Function) {
 	if t.probe != nil {
 		t.lastRetOK = a.retOK
 		t.lastPostOK = a.postOK
+		t.lastFeas = a.feas
 	}
 	mergeSum(t.ret, a.retAV)
 	mergeSum(t.retOK, a.retOK)
